@@ -535,6 +535,26 @@ func c12Numbers(w *W) {
 		checkArr(nil)
 		checkArr(lat[:40])
 	}
+	// string arrays: in no-copy mode plain strings stay in the input and escaped ones go to the
+	// string buffer, so one array can hold strings from both places
+	strs := []string{`"a"`, `"l\nb"`, `"\u0041"`, `""`, `"` + strings.Repeat("plain-", 8) + `"`, `"é\t"`}
+	w.Note(fmt.Sprintf("string arrays: every array of <= 3 elements over %d strings (plain, escaped, empty, 48 bytes, non-ASCII) in both string modes through AsString/AsStringCvt/Interface", len(strs)))
+	for _, copyStrings := range []bool{true, false} {
+		cfg = Cfg{hasAVX512, copyStrings}
+		for _, a := range strs {
+			w.res.States++
+			if !w.Mine() {
+				continue
+			}
+			checkArr([]string{a})
+			for _, b := range strs {
+				checkArr([]string{a, b})
+				for _, c := range strs {
+					checkArr([]string{a, b, c})
+				}
+			}
+		}
+	}
 }
 
 func c12ArrayAccessors(pj *simdjson.ParsedJson, d *ref.Node) (what, fp string) {
